@@ -136,6 +136,14 @@ class C13(Campaign):
             while len(sc["gv"][c]) < n:
                 sc["gv"][c].append(rnd.getrandbits(len(prog["states"])))
         sc["observe_more"] = True
+        plain = not any(prog.get(f) for f in ("any", "event_decl", "event_names")) and not any(
+            t.get(f) for t in prog["trans"] for f in ("orgroup", "devent", "msrc")) and not foreign and not mixin
+        if plain and rnd.random() < 0.15:
+            # the driven machine is an instance of a SUBCLASS that attaches new events -- given by name
+            # only -- to inherited states: they are declared events of the subclass like any other
+            from .basic import C02
+
+            C02.drive_a_subclass(rnd, sc)
         return sc
 
     def evaluate(self, sc):
